@@ -49,6 +49,15 @@ func (c *fcase) toCase() core.Case {
 }
 
 func replayC03(c core.Case) *core.Finding {
+	if c.Harness == "c03.twice" {
+		b := unhex(c.Frame)
+		for _, v := range validCorpus() {
+			if bytes.Equal(v.B, b) {
+				return c03Twice(v)
+			}
+		}
+		return nil
+	}
 	if c.Harness == "c03.pressure" {
 		g, _ := c14Pressure(byte(paramInt(c.Params, "type")), paramInt(c.Params, "n"))
 		if g != nil {
@@ -123,6 +132,37 @@ func c03Exec(c *fcase) (*core.Finding, []byte) {
 		return mk("value:"+diffClass(diff), "accessors differ from the values the frame carries: "+strings.Join(clipList(diff, 4), "; ")), frame
 	}
 	return nil, frame
+}
+
+func c03Twice(v VFrame) *core.Finding {
+	resetGlobals()
+	tname := gen.Schemas[v.B[0]>>4].Name
+	first, err, res := readPacket(bytes.NewReader(v.B), stepBudget(len(v.B)))
+	if err != nil || first == nil || res.Panic != "" || res.Budget {
+		return nil // the plain V.corpus stratum reports that
+	}
+	for _, m := range c14Mutators(first) {
+		m := m
+		guarded(0, func() { m.Call(first) })
+	}
+	mk := func(class, what string) *core.Finding {
+		return &core.Finding{Class: tname + "/decoded-again/" + class, Sig: map[string]string{"type": tname},
+			Detail: fmt.Sprintf("valid frame %s decoded, the returned packet changed through its setters by the caller, the same frame decoded again: %s", abbrevHex(v.B), what)}
+	}
+	r, rerr, res := readPacket(bytes.NewReader(v.B), stepBudget(len(v.B)))
+	switch {
+	case res.Panic != "" || res.Budget:
+		return mk("panic", res.Panic)
+	case rerr != nil || r == nil:
+		return mk("rejected", fmt.Sprintf("ReadPacket rejects it: %v", rerr))
+	}
+	obs, notes := bind.Observe(r)
+	diff := spec.Diff(spec.Normalise(expectedOf(v.P)), spec.Normalise(obs))
+	diff = append(diff, notes...)
+	if len(diff) > 0 {
+		return mk("value:"+diffClass(diff), "accessors differ from the values the frame carries: "+strings.Join(clipList(diff, 4), "; "))
+	}
+	return nil
 }
 
 // errClass reduces an error message to a stable class (numbers removed).
@@ -313,6 +353,19 @@ func runC03(x *core.Ctx) {
 	for _, v := range validCorpus() {
 		if !do(&fcase{Stratum: "V.corpus", P: v.P, Form: v.Form}) {
 			return
+		}
+	}
+	// the same frames decoded a second time after the caller has changed the
+	// packet the first decode returned (it is the caller's): the second
+	// decode still yields the values the frame carries
+	for _, v := range validCorpus() {
+		if !x.Mine() {
+			continue
+		}
+		v := v
+		x.Eval("V.corpus.decoded-again-after-the-caller-changed-the-first-packet")
+		if f := c03Twice(v); f != nil {
+			x.Report(f, func() core.Case { return core.Case{Harness: "c03.twice", Frame: hexOf(v.B)} }, func() *core.Finding { return c03Twice(v) })
 		}
 	}
 	// (V) values: the C01 strata in the long form
